@@ -365,6 +365,7 @@ class Ctl:
         self.abort = False
         self.snapshot_taken = False
         self.event_gate = False
+        self.lock_gate = False
         self.loader_ident = None
 
     def gate(self, name):
@@ -388,7 +389,7 @@ class Ctl:
             self.store_permits.release()
 
 
-def make_inner(storage, ctl):
+def make_inner(storage, ctl, eager=False):
     from prompt_toolkit.history import History
 
     class GatedInner(History):
@@ -397,7 +398,7 @@ def make_inner(storage, ctl):
             self.storage = list(storage)
 
         def load_history_strings(self):
-            ctl.loader_ident = threading.get_ident()
+            ctl.loader_ident = threading.current_thread()
             ctl.gate("pre")
             snap = self.storage[::-1]
             ctl.snapshot_taken = True
@@ -409,7 +410,32 @@ def make_inner(storage, ctl):
         def store_string(self, s):
             ctl.store_gate()
             self.storage.append(s)
-    return GatedInner()
+
+    class GatedIter:
+        def __init__(self, snap):
+            self.snap, self.i = snap, 0
+
+        def __iter__(self):
+            return self
+
+        def __next__(self):
+            if self.i < len(self.snap):
+                ctl.gate("item")
+                self.i += 1
+                return self.snap[self.i - 1]
+            ctl.gate("end")
+            raise StopIteration
+
+    class EagerInner(GatedInner):
+        # like FileHistory: the storage is read INSIDE the call, which returns an iterator over the result
+        # (same gates in the same order as the generator above)
+        def load_history_strings(self):
+            ctl.loader_ident = threading.current_thread()
+            ctl.gate("pre")
+            snap = self.storage[::-1]
+            ctl.snapshot_taken = True
+            return GatedIter(snap)
+    return EagerInner() if eager else GatedInner()
 
 
 _tl = threading.local()
@@ -422,7 +448,7 @@ class GatedEvent(threading.Event):
 
     def set(self):
         c = _EVENT_GATE["ctl"]
-        if c is not None and c.event_gate and not c.abort and threading.get_ident() == c.loader_ident:
+        if c is not None and c.event_gate and not c.abort and threading.current_thread() is c.loader_ident:
             c.gate("set")
         super().set()
 
@@ -459,6 +485,10 @@ class GatedLock:
 
     def __exit__(self, *a):
         self._l.release()
+        c = _EVENT_GATE["ctl"]
+        if c is not None and c.lock_gate and not c.abort and threading.current_thread() is c.loader_ident:
+            c.gate("unlock")        # the loader thread stops on leaving each of its lock regions
+            return
         ex = getattr(_tl, "consumer", None)
         if ex is not None and ex.pause is not None:
             p, ex.pause = ex.pause, None
@@ -529,13 +559,13 @@ class Replayer:
                 return False
             time.sleep(0.0002)
 
-    def replay(self, S0, labels, holds=(), event_gate=False):
+    def replay(self, S0, labels, holds=(), event_gate=False, fine=False):
         """-> (observations, info) ; info: appends with the loader phase they fell in, storage at each consumer start.
         holds: indices of CRead labels whose consumer is stopped right after its locked read until the
         run of loader steps following it is over (those steps get observation None)."""
         from prompt_toolkit.history import ThreadedHistory
         ctl = Ctl()
-        inner = make_inner([unS(x) for x in S0], ctl)
+        inner = make_inner([unS(x) for x in S0], ctl, eager=fine)
         th = ThreadedHistory(inner)
         th._lock = GatedLock()
         held = [None]
@@ -543,12 +573,14 @@ class Replayer:
         appender = [None]
         obs = []
         info = {"appends": [], "starts": [], "hang": False, "race": False, "unfinished": False,
-                "window_strings": [], "inserted_at_start": [], "finish_in_loop": False}
+                "window_strings": [], "inserted_at_start": [], "finish_in_loop": False, "foreign_late": []}
+        fheld = {}               # fine replay: consumer number -> its executor job stopped at the end of its lock region
         inserted = []            # strings whose append_string has done its insert
         pending_window = [None]  # the string of an append_string whose insert fell before the snapshot
         in_loop = [False]        # the loader is stopped inside one of its event loops
-        if event_gate:
+        if event_gate or fine:
             ctl.event_gate = True
+            ctl.lock_gate = fine
             _EVENT_GATE["ctl"] = ctl
 
         def observe():
@@ -625,6 +657,36 @@ class Replayer:
                         ex = c["ex"]
                         if not self.pump(c["loop"], lambda c=c, ex=ex, n0=n0: c["task"].done() or (ex.reads() > n0 and ex.log[-1] != "in_executor")):
                             raise Hang()
+                elif k == 3 and fine:
+                    # the executor job `in_executor` only: it is stopped when it leaves the lock region
+                    c = cons[lab[1]]
+                    ex = c["ex"]
+                    n0 = ex.reads()
+                    p = {"paused": threading.Event(), "resume": threading.Event()}
+                    ex.pause = p
+                    # (the model asks for a read only when the event is set: the job is reached at once; a read
+                    # that is not is one the implementation would block on)
+                    if not self.pump(c["loop"], lambda c=c, p=p: p["paused"].is_set() or c["task"].done(), timeout=0.45):
+                        raise Hang()
+                    if p["paused"].is_set():
+                        fheld[lab[1]] = (c, p, n0)
+                    else:
+                        ex.pause = None
+                elif k == 9:
+                    # the coroutine goes on: items_yielded, the yields, and the unregistering when done
+                    if lab[1] in fheld:
+                        c, p, n0 = fheld.pop(lab[1])
+                        ex = c["ex"]
+                        p["resume"].set()
+                        if not self.pump(c["loop"], lambda c=c, ex=ex, n0=n0: c["task"].done() or (ex.reads() > n0 and ex.log[-1] != "in_executor")):
+                            raise Hang()
+                        if in_loop[0] and c["task"].done():
+                            info["finish_in_loop"] = True
+                elif k == 11:
+                    # another History instance on the same storage stores a string
+                    if ctl.snapshot_taken:
+                        info["foreign_late"].append(unS(lab[1]))
+                    inner.storage.append(unS(lab[1]))
                 elif k == 3:
                     c = cons[lab[1]]
                     ex = c["ex"]
@@ -660,7 +722,7 @@ class Replayer:
                             break
                         if time.time() - t0 > 5:
                             raise Hang()
-                    in_loop[0] = (got == "set")
+                    in_loop[0] = (got in ("set", "unlock"))
                 elif k == 4:
                     info["appends"].append(when())
                     pending_window[0] = unS(lab[1]) if info["appends"][-1] == "before_snapshot" else None
@@ -688,6 +750,8 @@ class Replayer:
             _EVENT_GATE["ctl"] = None
             if held[0] is not None:
                 held[0][1]["resume"].set()
+            for _c, _p, _n in fheld.values():
+                _p["resume"].set()
             for c in cons:
                 if c["ex"].pause is not None:
                     c["ex"].pause = None
@@ -714,6 +778,9 @@ class Replayer:
                         self.pump(c["loop"], lambda c=c: c["task"].done(), timeout=2)
                 if c["task"].done() and not c["task"].cancelled():
                     c["task"].exception()
+        info["final_outs"] = [[[S(x) for x in c["out"]],
+                               (1 if (not c["task"].cancelled() and c["task"].exception() is None) else 99) if c["task"].done() else 0] for c in cons]
+        info["fine"] = bool(fine)
         info["final_loaded"] = bool(th._loaded)
         info["final_cache"] = [S(x) for x in th._loaded_strings]
         info["final_get_strings"] = [S(x) for x in th.get_strings()]
@@ -730,6 +797,19 @@ def oracle_threaded(S0, labels, obs, info):
              consumer_finished_inside_event_loop   a load() finished while the loader was inside one of
                                     its `for event in ...: event.set()` loops (C13-F4)
              otherwise the phase of the first concurrent append / no_concurrent_append"""
+    if info["hang"] and info.get("fine") and not info["unfinished"]:
+        # the schedule could not be forced to its end (the implementation's statements are not the model's);
+        # everything was then let run to completion: judge what the load() calls yielded in the end
+        for ci, (out, fin) in enumerate(info.get("final_outs", [])):
+            touts = list(map(tuple, out))
+            start = [x for x in (S(y) for y in info["starts"][ci]) if x not in [S(z) for z in info.get("foreign_late", [])]] if ci < len(info["starts"]) else []
+            how = "consumer %d yielded %r in the end (storage at its start %r; the schedule was forced up to the step that timed out, then every thread ran to completion)" % (
+                ci, [unS(x) for x in out], [unS(x) for x in start])
+            if any(touts.count(x) > 1 for x in touts):
+                return ("load() yielded an entry twice", {"op": "ThreadedHistory.load", "when": "unforceable_schedule", "clause": "yield-twice"}, how)
+            if fin == 1 and [x for x in out if x in start] != start[::-1]:
+                return ("load() did not yield the entries present at its start exactly once, newest first",
+                        {"op": "ThreadedHistory.load", "when": "unforceable_schedule", "clause": "yield-missing"}, how)
     if info["hang"] and not info.get("finish_in_loop"):
         return ("replay hung (a wait timed out)", {"op": "ThreadedHistory", "family": "hang"}, "")
     concurrent = [w for w in info["appends"] if w not in ("before_load", "quiescent")]
@@ -740,11 +820,12 @@ def oracle_threaded(S0, labels, obs, info):
         return ("a load() did not finish although the loader thread had finished" if info["unfinished"] else "replay hung (a wait timed out)",
                 {"op": "ThreadedHistory.load" if info.get("finish_in_loop") else op, "when": wf, "clause": "finish"}, "")
     window = [tuple(S(x)) for x in info.get("window_strings", [])]
+    late = [S(x) for x in info.get("foreign_late", [])]     # stored by another instance after the loader read the storage
     last = obs[-1]
     for ci, (out, fin) in enumerate(last[3]):
         if fin == 99:
             return ("load() raised", {"op": op, "when": w, "clause": "raise"}, "")
-        start = [S(x) for x in info["starts"][ci]]
+        start = [x for x in (S(y) for y in info["starts"][ci]) if x not in late]
         inserted_before = [tuple(S(x)) for x in info.get("inserted_at_start", [[]] * (ci + 1))[ci]]
         touts = list(map(tuple, out))
         dups = sorted(set(x for x in touts if touts.count(x) > 1))
@@ -764,6 +845,7 @@ def oracle_threaded(S0, labels, obs, info):
                 if len(o) > 3 and ci < len(o[3]) and o[3][ci][1] == 1:
                     inline = o[0][::-1]
                     break
+            inline = [x for x in inline if x not in late]
             if fin == 1 and out != inline:
                 return ("threaded load() != inline load()", {"op": op, "when": w, "clause": "yield-inline"},
                         "consumer %d yielded %r, inline %r" % (ci, [unS(x) for x in out], [unS(x) for x in inline]))
@@ -771,6 +853,8 @@ def oracle_threaded(S0, labels, obs, info):
                 return ("threaded load() yielded a non-prefix of the inline sequence", {"op": op, "when": w, "clause": "yield-inline"},
                         "consumer %d yielded %r, inline %r" % (ci, [unS(x) for x in out], [unS(x) for x in inline]))
     # after the replay the loader was let run to the end and every append completed
+    if late:
+        info = dict(info, final_storage=[x for x in info["final_storage"] if x not in late])
     if info["final_loaded"] and (info["final_cache"] != info["final_storage"][::-1] or info["final_get_strings"] != info["final_storage"]):
         cache = list(map(tuple, info["final_cache"]))
         once = list(cache)
@@ -785,7 +869,7 @@ def oracle_threaded(S0, labels, obs, info):
 
 
 def label_name(l):
-    return {1: "L", 2: "CStart", 3: "CRead%d" % (l[1] if len(l) > 1 and isinstance(l[1], int) else 0), 4: "AIns", 5: "ASto", 6: "Append", 8: "l"}.get(l[0], "?")
+    return {1: "L", 2: "CStart", 3: "CRead%d" % (l[1] if len(l) > 1 and isinstance(l[1], int) else 0), 4: "AIns", 5: "ASto", 6: "Append", 8: "l", 9: "CCont%d" % (l[1] if len(l) > 1 and isinstance(l[1], int) else 0), 11: "Other"}.get(l[0], "?")
 
 
 def gen_schedules(chk):
@@ -863,6 +947,89 @@ def gen_event_schedules(chk):
     dist["ewalk"] = {"replayed": nw}
     # Props/C13.v skip_sched (+ one more loader statement): the C13-F4 schedule
     scheds.insert(0, ([a], [[2], [2], [8], [8], [8], [8], [3, 1], [8], [3, 0], [8], [8]]))
+    return scheds, dist
+
+
+def _interleavings(n_own, n_for):
+    if n_own == 0 and n_for == 0:
+        return [[]]
+    out = []
+    if n_own:
+        out += [["O"] + r for r in _interleavings(n_own - 1, n_for)]
+    if n_for:
+        out += [["F"] + r for r in _interleavings(n_own, n_for - 1)]
+    return out
+
+
+def gen_fine_schedules(chk):
+    """Schedules at thread-switch granularity (Model/C13_ThreadedFine.v, model kinds 10/12/13/14): the loader
+    stopped after every lock region and before every set(), a load()'s locked read and its continuation as
+    two steps, appends by ANOTHER instance on the same storage."""
+    rng = chk.rng
+    thorough = chk.tier == "thorough"
+    a, b = S("a"), S("b")
+    own, foreign = [S("N1"), S("N2")], [S("F1"), S("F2")]
+    # family 1 (exhaustive small scope): every interleaving of <= 2 appends by this object and <= 2 by another
+    # instance BEFORE the first load(); then load(), with / without a read before the loader has read the
+    # storage; another instance storing in the window / after the snapshot / not; completed fairly by the model
+    prefixes = []
+    for s0 in ([a], [], [a, b]):
+        for no in range(3):
+            for nf in range(3):
+                for order in _interleavings(no, nf):
+                    pre, io, jf = [], 0, 0
+                    for t in order:
+                        if t == "O":
+                            pre += [[4, own[io]], [5, own[io]]]
+                            io += 1
+                        else:
+                            pre += [[11, foreign[jf]]]
+                            jf += 1
+                    for early in (0, 1):
+                        for mid in (0, 1, 2):
+                            lab = pre + [[2]] + ([[3, 0], [9, 0]] if early else [])
+                            if mid == 1:
+                                lab = lab + [[11, S("G")]]
+                            elif mid == 2:
+                                lab = lab + [[8], [11, S("G")]]
+                            prefixes.append((s0, lab))
+    n_all = len(prefixes)
+    prefixes.sort(key=lambda x: -len(x[1]))          # the richest first (stable)
+    if not thorough:
+        first = [x for x in prefixes if x[0] == [a]]
+        rest = [x for x in prefixes if x[0] != [a]]
+        prefixes = first + rng.sample(rest, 40)
+    res = run_model("c13", [[14, s0, lab, 80] for s0, lab in prefixes])
+    scheds, dist = [], {}
+    n1 = 0
+    for (s0, lab), r in zip(prefixes, res):
+        if isinstance(r, list) and r and r != [-999] and r != ["MODEL-NO-OUTPUT"]:
+            scheds.append((s0, r))
+            n1 += 1
+    dist["preload_appends_own_x_foreign (exhaustive family of %d)" % n_all] = {"replayed": n1}
+    # family 2: every forceable schedule to a depth
+    params = [([a], [S("N1")], [S("F1")], 1, 7), ([a], [], [], 2, 8), ([a, b], [S("N1")], [], 1, 8)]
+    if thorough:
+        params = [([a], [S("N1")], [S("F1")], 1, 10), ([a], [], [], 2, 11), ([a, b], [S("N1")], [], 1, 11), ([a], [], [S("F1")], 2, 9)]
+    res = run_model("c13", [[12, s0, p1, p2, maxc, fuel] for s0, p1, p2, maxc, fuel in params], shards=len(params))
+    per = 1500 if thorough else 50
+    for (s0, p1, p2, maxc, fuel), r in zip(params, res):
+        if not isinstance(r, list) or r == [-999] or r == ["MODEL-NO-OUTPUT"]:
+            chk.note("model fine-schedule enumerator failed for %r" % ([s0, p1, p2, maxc, fuel],))
+            continue
+        pick = r if len(r) <= per else rng.sample(r, per)
+        dist["genum S0=%d own=%d other=%d maxc=%d depth=%d" % (len(s0), len(p1), len(p2), maxc, fuel)] = {"enumerated": len(r), "replayed": len(pick)}
+        scheds += [(s0, sch) for sch in pick if sch]
+    # family 3: guided walks
+    walks = [[13, [S(x) for x in rng.sample(["a", "b", "c"], rng.randint(0, 3))], own[:rng.randint(0, 2)], foreign[:rng.randint(0, 2)],
+              rng.randint(1, 3), [rng.randint(0, 23) for _ in range(rng.randint(8, 30))]] for _ in range(1500 if thorough else 60)]
+    wres = run_model("c13", walks)
+    nw = 0
+    for c, r in zip(walks, wres):
+        if isinstance(r, list) and r and r != [-999]:
+            scheds.append((c[1], r))
+            nw += 1
+    dist["gwalk"] = {"replayed": nw}
     return scheds, dist
 
 
@@ -1063,6 +1230,38 @@ def _main(chk, pr, runner, rep):
                 [unS(x) for x in s0], " ".join(label_name(l) for l in labels)),
                 tags, {"case": sx_norm(case), "observed_last": sx_norm(obs[-1]), "clause": clause,
                        "how": "as kind 2 with prompt_toolkit.history's threading.Event replaced by a gated subclass; harness/c13.py Replayer.replay(event_gate=True)"})
+    # ---- kind 10: thread-switch granularity (loader stopped after every lock region and before every set();
+    # locked read and continuation of a load() as two steps; another instance storing on the same storage)
+    fine_scheds, fdist = gen_fine_schedules(chk)
+    dist["fine_schedules"] = fdist
+    nfine = 0
+    hangs0 = rep.hangs
+    for s0, labels in fine_scheds:
+        if rep.hangs - hangs0 >= 20:
+            chk.note("fine replay stopped after %d hung schedules" % (rep.hangs - hangs0))
+            break
+        obs, info = with_watchdog(lambda: rep.replay(s0, labels, fine=True), 60)
+        if info["race"]:
+            continue
+        case = [10, s0, labels]
+        i = len(cases)
+        cases.append(case)
+        impl_results.append(obs)
+        metas.append({"kind": "threaded", "gen": "fine_schedule"})
+        chk.count_case(case, len(labels) >= 3)
+        nfine += 1
+        bad = oracle_threaded(s0, labels, [o for o in obs if len(o) > 3] or obs, info)
+        if bad:
+            oracle_bad.add(i)
+            clause, tags, detail = bad
+            chk.violation("oracle", clause + " (" + detail + "; S0=%r schedule=%s; l = one statement of the loader thread (stopped after every lock region and before every event.set()), CRead = the locked executor job of a load(), CCont = its continuation, Other = another instance stores a string on the same storage)" % (
+                [unS(x) for x in s0], " ".join(label_name(l) + ("(%s)" % unS(l[1]) if l[0] in (4, 11) else "") for l in labels)),
+                tags, {"case": sx_norm(case), "observed_last": sx_norm(obs[-1]), "clause": clause,
+                       "how": "ThreadedHistory over a gated, eagerly read in-memory history; harness/c13.py Replayer.replay(fine=True)"})
+        if i % 53 == 0:
+            chk.sample({"family": "fine_schedule", "S0": [unS(x) for x in s0], "schedule": " ".join(label_name(l) for l in labels),
+                        "yielded": [[unS(x) for x in c[0]] for c in obs[-1][3]] if len(obs[-1]) > 3 else None}, limit=20)
+    dist["fine_schedules_replayed"] = nfine
     dist["event_loop_schedules_replayed"] = nev
     dist["event_loop_schedules_with_a_finish_inside_a_loop"] = nin
     dist["schedule_appends_when"] = whens
@@ -1134,13 +1333,15 @@ def _main(chk, pr, runner, rep):
         "malformed stream (invalid UTF-8, lone surrogates, negative cuts). kind 5: CPython's utf-8/replace decoder vs the decoder model (all single bytes, lead x "
         "second byte grid, 3/4-byte boundary grid, random). kind 2: schedules enumerated by the Coq model (all forceable interleavings to the given depth, or a "
         "random sample of them) and model-guided random walks, forced on a real ThreadedHistory over a gated inner history, state observed after every step. "
+        "kind 10: the same at thread-switch granularity (Model/C13_ThreadedFine.v): loader stopped after every lock region and before every set(), locked read / continuation of a load() as two steps, "
+        "another instance storing on the same (eagerly read) storage; exhaustive family of <= 2 own x <= 2 foreign appends before the first load() x early read x foreign store in the window/after/none, model-enumerated schedules, walks. "
         "non-trivial: kind 1 contains an append or is a torn case; kind 5 contains a byte >= 0x80; kind 2 has >= 3 steps; distinct by hash of the whole case"
         % (3 if chk.tier == "thorough" else 2, SMALL, len(set(ALPHA)), sum(1 for m in metas if m.get("gen") == "every_offset" and m.get("n") == 0)))
     chk.assumptions += [
         "a crash during a write is DEFINED as truncation of the file's byte sequence; OS-level durability (no fsync, O_APPEND atomicity across processes) is outside the model",
         "CPython's UTF-8 decoder with errors='replace' is C code outside /repo: the Coq decoder (Model/C13_Utf8.v utf8_dec) is a model of it, tied by the kind-5 correspondence and by every torn-file case; the theorems hold for that model",
         "the timestamp is any byte string without line feed (datetime.now() formatting is outside the model)",
-        "ThreadedHistory: lock regions are atomic steps; the loader's unlocked `for event in ...: event.set()` loops are one step in Model/C13_Threaded.v (kinds 2/6) and single set() calls in Model/C13_ThreadedEv.v (kind 7; the loop runs over a COPY of the list since commit 8f41d2f); a consumer unregisters atomically with its last read; threading.Lock/Event, run_in_executor and list operations under the GIL are trusted; the model lets a consumer read at any time (superset of real schedules)",
+        "ThreadedHistory: lock regions are atomic steps; the loader's unlocked `for event in ...: event.set()` loops are one step in Model/C13_Threaded.v (kinds 2/6) and single set() calls in Model/C13_ThreadedEv.v (kind 7; the loop runs over a COPY of the list since commit 8f41d2f); a consumer unregisters atomically with its last read in those two models; Model/C13_ThreadedFine.v (kind 10) has every loader statement incl. the copy after the lock region, the locked read and its continuation, and another instance's stores as separate steps; the first load()'s reset/thread start/registration is one step everywhere; threading.Lock/Event, run_in_executor and list operations under the GIL are trusted; the model lets a consumer read at any time (superset of real schedules)",
         "load() and append_string both run on the event-loop thread: schedules in which a load() starts between the two halves of an append_string are not forced (and are outside the theorem's hypothesis ok_sched)",
     ]
     return chk.finish()
@@ -1188,6 +1389,22 @@ def replay(data):
                 if len(o) > 3:
                     print("  %-9s cache=%r loaded=%r yielded=%r" % (label_name(l), [unS(x) for x in o[1]], o[2], [[unS(x) for x in c[0]] for c in o[3]]))
             bad = oracle_threaded(case[1], case[2], obs, info)
+            print("ORACLE FAILS: %s (%s) tags=%r" % (bad[0], bad[2], bad[1]) if bad else "oracle ok")
+            rc = 1 if bad else 0
+            m = run_model("c13", [case])[0]
+            print("model agrees" if m == sx_norm(obs) else "model differs")
+        finally:
+            rep.close()
+    elif case[0] == 10:
+        rep = Replayer()
+        try:
+            obs, info = rep.replay(case[1], case[2], fine=True)
+            print("S0=%r schedule=%s   (l = one loader statement; CRead = locked read, CCont = its continuation; Other = another instance stores)" % (
+                [unS(x) for x in case[1]], " ".join(label_name(l) + ("(%s)" % unS(l[1]) if l[0] in (4, 11) else "") for l in case[2])))
+            for l, o in zip(case[2], obs):
+                if len(o) > 3:
+                    print("  %-7s storage=%r cache=%r loaded=%r yielded=%r events=%r" % (label_name(l), [unS(x) for x in o[0]], [unS(x) for x in o[1]], o[2], [[unS(x) for x in c[0]] for c in o[3]], o[4]))
+            bad = oracle_threaded(case[1], case[2], [o for o in obs if len(o) > 3] or obs, info)
             print("ORACLE FAILS: %s (%s) tags=%r" % (bad[0], bad[2], bad[1]) if bad else "oracle ok")
             rc = 1 if bad else 0
             m = run_model("c13", [case])[0]
